@@ -8,7 +8,7 @@ from gen import rand_input, rand_bounds, DELIMS
 LEVEL = "proof"
 
 
-def run(chk):
+def _run_once(chk):
     chk.rule = ("record-oriented modes (-f general path, fast path, dispatch; -c; --json; -M with random segmentation): random A (1-3 records "
                 "ending with EOL, incl. empty records, records that use fallbacks / the early stop / fail) and B; triples A, B, A‖B; plus "
                 "cut_str called directly with dirty scratch buffers (ranges and bytes left by another record, longer and shorter); "
@@ -95,3 +95,9 @@ def run(chk):
         if si[k] != si[k + 1]:
             chk.report_oracle("cut_str depends on what the scratch buffers held",
                               {"case": ls[k], "case_b": ls[k + 1], "dirty": si[k], "clean": si[k + 1]})
+
+
+def run(chk):
+    # thorough = several independent rounds of the same generators (the PRNG keeps advancing), so that memory stays bounded
+    for _round in range(1 if chk.tier == "quick" else 6):
+        _run_once(chk)
